@@ -65,19 +65,19 @@ section
 variable {C : Codec} (hC : C.Valid)
 include hC
 
-theorem isFloat_fmtDur {d : Int} (hd : d.natAbs ≤ durMax.toNat) (h0 : 0 ≤ d) : isFloat (C.fmtDur d) = true := by
+theorem isFloat_fmtDur {d : Int} (hd : DurDom d) (h0 : 0 ≤ d) : isFloat (C.fmtDur d) = true := by
   obtain ⟨q, n, h1, _⟩ := fmtDur_spec hC hd
   rw [h1]
   have : decide (d < 0) = false := by simp; omega
   rw [this]
   exact isFloat_decText q
 
-theorem isSignedFloat_fmtDur {d : Int} (hd : d.natAbs ≤ durMax.toNat) : isSignedFloat (C.fmtDur d) = true := by
+theorem isSignedFloat_fmtDur {d : Int} (hd : DurDom d) : isSignedFloat (C.fmtDur d) = true := by
   obtain ⟨q, n, h1, _⟩ := fmtDur_spec hC hd
   rw [h1]
   exact isSignedFloat_decText _ q
 
-theorem durChar_fmtDur {d : Int} (hd : d.natAbs ≤ durMax.toNat) : (C.fmtDur d).all durChar = true :=
+theorem durChar_fmtDur {d : Int} (hd : DurDom d) : (C.fmtDur d).all durChar = true :=
   fmtDur_chars hC hd
 
 end
